@@ -108,7 +108,10 @@ structure CloseSt where
 inductive CloseEv
   | set (id : Nat)             -- SetBodyStream / SetBodyStreamWriter: ResetBody, then attach
   | compress                   -- gzipBody/deflateBody/brotliBody/zstdBody on a stream body
-  | detachClose                -- closeBodyStream: successful or failed write (no panic), ResetBody, Reset, ReleaseBody
+  | detachClose (closeErr : Bool)
+                               -- (closeErr: the stream's Close / CloseWithError returned an error — the result is handed to the
+                               -- caller, the stream is detached all the same)
+                               -- closeBodyStream: successful or failed write (no panic), ResetBody, Reset, ReleaseBody
                                -- of a large buffer, CloseBodyStream, Body(), SetBody*, AppendBody*, SwapBody
   | panicWrite                 -- Read panics during Write: Response recovers, Request propagates; neither closes
   | noop                       -- ReleaseBody that keeps the buffer, Write without stream, …
@@ -133,7 +136,7 @@ def closeStep (s : CloseSt) : CloseEv → CloseSt
     match s.att with
     | .plain id => { s with att := .comp id, pending := id :: s.pending, wrapped := id :: s.wrapped }
     | _ => s
-  | .detachClose => detach s
+  | .detachClose _ => detach s
   | .panicWrite => s
   | .noop => s
   | .writerFinish id =>
